@@ -149,6 +149,12 @@ func (k Keeper) ManyToOne(ctx context.Context, denom string, targets ...string) 
 		if baseDenom, err = k.GetBaseDenom(ctx, denom); err != nil {
 			return "", err
 		}
+	} else if strings.HasPrefix(denom, ibctransfertypes.DenomPrefix+"/") {
+		// the transfer module sets bank metadata for every voucher it mints, so a voucher
+		// that is registered as an alias of a token looks like a base denom: resolve the alias
+		if aliasBase, aliasErr := k.GetBaseDenom(ctx, denom); aliasErr == nil {
+			baseDenom = aliasBase
+		}
 	}
 
 	// 2. not need convert
